@@ -206,7 +206,7 @@ def classify(args):
 
 # ------------------------------------------------------------------ session: server + model
 class Sess:
-    def __init__(self, rows, tag="c08", quirks=(0, 0, 0), base_db=0):
+    def __init__(self, rows, tag="c08", quirks=(0, 0, 0, 0), base_db=0):
         self.base_db = base_db
         self.srv = Server(tag)
         self.cl = {i: self.srv.client() for i in (A, B, C)}
@@ -226,7 +226,7 @@ class Sess:
         self.disagree = []       # model disagreements (code model vs implementation)
         self.execs = []          # every EXEC verdict of the current cell
         self.evals = 0
-        self.ask("reset %d %d %d" % tuple(quirks))
+        self.ask("reset %d %d %d %d" % tuple(quirks))
         for r in rows:
             self.ask("fn %s %d %s %s %d" % (r["name"], r["mutates"], ",".join(r["keyParams"]) or ".",
                                            ",".join(r["marked"]) or ".", r["marksAll"]))
@@ -373,7 +373,18 @@ class Sess:
         name = up(args[0])
         cli = self.conn(c)
         self.evals += 1
-        if name in TXCTL and not (self.intx[c] and name == "SELECT"):
+        if name in ("MULTI", "EXEC", "DISCARD", "UNWATCH") and len(args) != 1 and not (self.intx[c] and name == "UNWATCH"):
+            # surplus arguments: refused by process_frame's arity guard, nothing changes (inside MULTI an UNWATCH is queued
+            # whatever its arguments: the queue test comes first)
+            r = cli.cmd(*args)
+            impl = self.canon(r)
+            m = self.ask("refused %d %d" % (c, self.now()))
+            st = self.record("ctl", c, args, impl, m)
+            if impl != m:
+                self.disagree.append({"cell": self.cell, "step": st, "why": "a transaction-control command with surplus arguments was not refused",
+                                      "impl": impl, "code": m, "steps": list(self.steps[self.cell_start:]), "upto": len(self.steps)})
+            return st
+        if name in TXCTL and not (self.intx[c] and name in ("SELECT", "UNWATCH")):
             return self.do_ctl(c, name, args)
         if self.intx[c]:
             r = cli.cmd(*args)
@@ -381,7 +392,12 @@ class Sess:
             impl = self.canon(r)
             if impl == "queued":
                 self.queue[c].append(args)
-            m = self.ask(("select %d %d %s" % (c, now, args[1].decode())) if name == "SELECT" else "cmd %d %d" % (c, now))
+            if name == "SELECT":
+                m = self.ask("select %d %d %s" % (c, now, args[1].decode()))
+            elif name == "UNWATCH":
+                m = self.ask("unwatch %d %d" % (c, now))      # queued: forgets nothing (a no-op slot of EXEC's reply)
+            else:
+                m = self.ask("cmd %d %d" % (c, now))
             st = self.record("queue", c, args, impl, m)
             if impl != m:
                 self.disagree.append({"cell": self.cell, "step": st, "why": "reply of a command sent inside MULTI", "impl": impl, "code": m,
@@ -908,6 +924,49 @@ def scenarios(s, wk, same_k, diff_k, rep, timed=True):
     s.do(B, ["SET", wk, "2"])
     s.do(A, ["SET", PROBE, "u"])
     s.do(A, ["EXEC"])
+    begin("unwatch-inside-multi-nothing-changes")
+    s.do(B, ["SET", wk, "1"])
+    s.do(A, ["WATCH", wk])
+    s.do(A, ["MULTI"])
+    s.do(A, ["UNWATCH"])                        # queued
+    s.do(A, ["SET", PROBE, "v"])
+    st = s.do(A, ["EXEC"])                      # executes: [OK (the UNWATCH slot), OK]
+    rep.count("scenario.unwatch-inside-multi.exec-%s" % st["impl"].replace(" ", "-"))
+    begin("unwatch-inside-multi-then-next-transaction")
+    s.do(A, ["WATCH", wk])
+    s.do(A, ["MULTI"])
+    s.do(A, ["UNWATCH"])
+    s.do(A, ["EXEC"])                           # EXEC forgets
+    s.do(B, ["SET", wk, "3"])
+    finish_tx(s, "w")                           # executes
+    # --- MULTI / EXEC / DISCARD / UNWATCH with surplus arguments are refused and change nothing: the watches stay
+    for junk in (["UNWATCH", "junk"], ["UNWATCH", wk], ["UNWATCH", "a", "b"]):
+        begin("refused-unwatch-keeps-watch")
+        s.do(B, ["SET", wk, "1"])
+        s.do(A, ["WATCH", wk])
+        s.do(A, junk)
+        s.do(B, ["SET", wk, "2"])
+        finish_tx(s, "j")                       # nil
+    for junk in (["EXEC", "junk"], ["DISCARD", "junk"], ["MULTI", "junk"]):
+        begin("refused-%s-inside-multi-keeps-watch-and-transaction" % junk[0].lower())
+        s.do(B, ["SET", wk, "1"])
+        s.do(A, ["WATCH", wk])
+        s.do(A, ["MULTI"])
+        s.do(A, ["SET", PROBE, "k"])
+        s.do(A, junk)                           # refused: still inside MULTI, queue and watches intact
+        s.do(B, ["SET", wk, "2"])
+        s.do(A, ["EXEC"])                       # nil
+        begin("refused-%s-inside-multi-nothing-changes" % junk[0].lower())
+        s.do(A, ["WATCH", wk])
+        s.do(A, ["MULTI"])
+        s.do(A, ["SET", PROBE, "k"])
+        s.do(A, junk)
+        s.do(A, ["EXEC"])                       # executes the one queued command
+        begin("refused-%s-outside-multi" % junk[0].lower())
+        s.do(A, ["WATCH", wk])
+        s.do(A, junk)
+        s.do(B, ["SET", wk, "2"])
+        finish_tx(s, "o")                       # nil
     begin("discard-without-multi-keeps-watch")
     s.do(B, ["SET", wk, "1"])
     s.do(A, ["WATCH", wk])
@@ -1295,7 +1354,7 @@ def main(tier, seed):
     rep.extra["translator_not_recognised"] = translator_notes
     rep.extra["table_nonmarking_writes"] = sorted("%s:%s" % (r["name"], p) for r in rows if r["mutates"] for p in (r["keyParams"] or ["*"])
                                                   if (p not in r["marked"] if r["keyParams"] else not r["marksAll"]))
-    rep.extra["watch_list_quirks"] = {"perDb": bool(quirks[0]), "rewatchKeeps": bool(quirks[1]), "watchPurges": bool(quirks[2])}
+    rep.extra["watch_list_quirks"] = {"perDb": bool(quirks[0]), "rewatchKeeps": bool(quirks[1]), "watchPurges": bool(quirks[2]), "unwatchQueued": bool(quirks[3])}
     r = Rng(seed)
     oracle, disagree = [], []
     rounds = [0] if tier == "quick" else [0, 3, 15, 9]
